@@ -52,6 +52,7 @@ type interpreter struct {
 	methodCache        map[methodKey]*ssa.Function
 	extCache           map[*ssa.Function]externalFn
 	extMiss            map[*ssa.Function]bool
+	bypass             *ssa.Function // call the real body of this intercepted function once
 	summaries          map[*ssa.Function]*fnSummary
 	inSummary          bool
 }
@@ -580,7 +581,9 @@ func callSSA(i *interpreter, caller *frame, callpos token.Pos, fn *ssa.Function,
 		fr.g = caller.g
 	}
 	if fn.Parent() == nil {
-		if !i.extMiss[fn] {
+		if i.bypass == fn {
+			i.bypass = nil
+		} else if !i.extMiss[fn] {
 			name := fn.String()
 			if fn.Origin() != nil {
 				name = fn.Origin().String()
